@@ -968,7 +968,7 @@ fn run_wallets(c: &mut Ctx, rng: &mut ChaCha20Rng, n: u64) {
                 };
                 c.r.count(&format!("engine_{}", name.replace('-', "_")), 1);
                 c.r.sig(&("engine", name, label, notes.len().min(20)));
-                if costs_as_assumed && split.len() < cap + 1 && total >= bound {
+                if costs_as_assumed && total >= bound {
                     c.viol(
                         &format!("engine:{name}:although-preparation-costs-as-assumed"),
                         format!("{e:?}: the whole balance {total} stays behind although the wallet mints the canonical split {split:?} in the assumed {assumed_txs} transactions"),
